@@ -133,12 +133,14 @@ class NumpyBackendProvider(BackendProvider):
             r = self._ir_to_source(right)
             if l is None or r is None:
                 return None
-            py_op = {'+': '+', '-': '-', '*': '*', '%': '/'}.get(op)
+            py_op = {'+': '+', '-': '-', '*': '*'}.get(op)
             if py_op is not None:
                 return f'({l}{py_op}{r})'
             # Python's ** is not Klong's Power (integral results are integers,
-            # integer overflow, nested operands): call the verb itself.
-            py_fn = {'^': '_kg_power'}.get(op)
+            # integer overflow, nested operands) and / is not Divide (a number
+            # divided by zero is :undefined, also when an operand is an array
+            # scalar such as the result of +/a): call the verb itself.
+            py_fn = {'%': '_kg_divide', '^': '_kg_power'}.get(op)
             if py_fn is None:
                 return None
             return f'{py_fn}({l},{r})'
